@@ -456,6 +456,9 @@ def local_from(finfo, pred, default=None, which=0, elt=0):
            n.value.id == name and n.targets[0].id != name]
     if len(set(nxt)) != 1:
       break
+    # only a pure hand-over: the receiving name has no other definition
+    if len(resolve_local(finfo, nxt[0])) != 1:
+      break
     name = nxt[0]
   return name
 
